@@ -317,6 +317,7 @@ class Attempt:
         self.replay = rng.randrange(1, 1000)
         self.sub = 8 if qos else 0
         self.seq = rng.randrange(4096)
+        self.desc = rng.choice([2, 2, 2, 254])          # RSN or WPA key descriptor
 
     def hdr(self, from_ap):
         self.seq = (self.seq + 1) % 4096
@@ -330,14 +331,14 @@ class Attempt:
         rsn_ie = bytes([0x30, 0x14, 1, 0, 0, 0x0f, 0xac, 4 if self.ccmp else 2, 1, 0, 0, 0x0f, 0xac, 4 if self.ccmp else 2,
                         1, 0, 0, 0x0f, 0xac, 2, 0, 0])
         if n == 1:
-            e = eapol_key(v, v | 0x08 | 0x80, kl, self.replay + replay_inc, self.anonce, b"")
+            e = eapol_key(v, v | 0x08 | 0x80, kl, self.replay + replay_inc, self.anonce, b"", desc=self.desc)
         elif n == 2:
-            e = eapol_key(v, v | 0x08 | 0x100, kl, self.replay + replay_inc, self.snonce, rsn_ie, kck)
+            e = eapol_key(v, v | 0x08 | 0x100, kl, self.replay + replay_inc, self.snonce, rsn_ie, kck, desc=self.desc)
         elif n == 3:
             e = eapol_key(v, v | 0x08 | 0x40 | 0x80 | 0x100 | 0x200 | 0x1000, kl, self.replay + 1 + replay_inc, self.anonce,
-                          rand_bytes(self.rng, 56), kck)
+                          rand_bytes(self.rng, 56), kck, desc=self.desc)
         else:
-            e = eapol_key(v, v | 0x08 | 0x100 | 0x200, kl, self.replay + 1 + replay_inc, bytes(32), b"", kck)
+            e = eapol_key(v, v | 0x08 | 0x100 | 0x200, kl, self.replay + 1 + replay_inc, bytes(32), b"", kck, desc=self.desc)
         return self.hdr(n in (1, 3)) + SNAP_EAPOL + e
 
 
@@ -361,8 +362,12 @@ def handshake_case(rng, B):
     psk = rng.choice([b"Induction", b"password1234", rand_bytes(rng, rng.randint(8, 20))])
     pmk = hashlib.pbkdf2_hmac("sha1", psk, ssid, 4096, 32)
     bssid, staA, staB, other = [rand_bytes(rng, 6) for _ in range(4)]
-    kind = rng.choice(["valid", "valid", "valid", "valid", "restart", "m1-again", "wrong-psk", "missing-m3", "reorder", "no-ap",
-                       "rekey", "rekey"])
+    if rng.random() < 0.25:
+        # station addresses that share a prefix of 5 / 3 / 0 octets with the BSSID, on either side of it
+        staA = bssid[:5] + bytes([bssid[5] ^ rng.choice([1, 0x80])])
+        staB = bssid[:3] + rand_bytes(rng, 3)
+    kind = rng.choice(["valid", "valid", "valid", "restart", "m1-again", "wrong-psk", "missing-m3", "reorder", "no-ap",
+                       "rekey", "rekey", "grammar", "grammar", "grammar", "close-nonces"])
     two = rng.random() < 0.35
     ops = ["case"]
     evs = []          # (frame bytes, annotation or None)
@@ -408,6 +413,32 @@ def handshake_case(rng, B):
                 for n in (1, 2, 3):
                     seq += [(old.msg(n), None)] * dup()
                 seq += [(old.msg(4), ("learn", old))]
+        if kind == "grammar":
+            # a random word of ( M1+ [ M2+ [ M3+ [ M4+ ] ] ] )* : attempts cut at any stage, every message possibly
+            # retransmitted (message 4 too), attempts that share a replay counter, the pair running the handshake
+            # several times; the keys of the LAST completed attempt are the ones installed
+            last, prev = None, None
+            for _ in range(rng.randint(1, 4)):
+                a = Attempt(rng, bssid, sta, pmk, rng.random() < 0.6, qos=rng.random() < 0.3)
+                if prev is not None and rng.random() < 0.4:
+                    a.replay = prev.replay
+                for n in range(1, rng.choice([1, 2, 3, 4, 4, 4]) + 1):
+                    c = dup()
+                    if n == 4:
+                        seq += [(a.msg(4), ("learn", a) if ap_known else None)] + [(a.msg(4), None)] * (c - 1)
+                        last = a
+                    else:
+                        seq += [(a.msg(n), None)] * c
+                prev = a
+            return seq, (last if ap_known else None)
+        if kind == "close-nonces":
+            # addresses / nonces that agree on a long prefix, or are equal: the Min / Max of the key derivation is decided
+            # by a late octet (or not at all)
+            cut = rng.choice([31, 31, 16, 1, 32])
+            att.snonce = att.anonce[:cut] + (rand_bytes(rng, 32 - cut) if cut < 32 else b"")
+            if rng.random() < 0.3:
+                att.snonce = att.snonce[:-1] + bytes([att.snonce[-1] ^ 0x80]) if cut < 32 else att.snonce
+            att.ptk = prf512(pmk, bssid, sta, att.anonce, att.snonce)
         if kind == "m1-again":
             seq += [(att.msg(1), None), (att.msg(2), None)]
             seq += [(att.msg(1, replay_inc=1), None)]
